@@ -91,6 +91,9 @@ func propC08(c *Ctx, r *Report) {
 	r.Clauses = append(r.Clauses, "syntax-tree walkers (E3): every function reachable from the parser / lowerer entry points that walks the parser's tree (a type switch over Expr, Stmt, Type or Decl nodes using every child in >= 3/4 of its arms) uses every child node of every variant it has an arm for and, when it has no default arm, has an arm for every variant that has children (a declaration referenced only through an unvisited child is ordered after its user and the valid program is rejected)")
 	c.runFrontendASTWalkers(r, "frontend")
 	r.floor("frontend.astwalkers", 8)
+	r.Clauses = append(r.Clauses, "explicit dereference (E75): where the lowerer takes a pointer from an explicit `*p` and asks the load rule for the pointee, it handles the rule leaving a pointer value unloaded")
+	c.runDerefLoadRule(r, "deref.loadrule", "wgsl/internal/lower")
+	r.floor("deref.loadrule", 1)
 	r.Clauses = append(r.Clauses, userShadowClause, innerFirstClause)
 	c.runUserShadow(r, "call.usershadow", "wgsl/internal/lower")
 	r.floor("call.usershadow", 1)
